@@ -1,12 +1,17 @@
 package verifmodel
 
-import "io"
+import (
+	"io"
+	"sync"
+)
 
 // io.Pipe in sequential mode (M4): the writer side runs to completion before the reader continues,
 // so the pipe is an unbounded queue. Blocking behaviour is not modelled here (C11's subject).
 
 type pipeState struct {
 	writerHeld int // locks the writing thread held at its last Write (what it keeps while parked on the pipe)
+	writer     int           // the thread that wrote
+	ghost      []*sync.Mutex // the mutexes that thread held at its last Write
 	buf     []byte
 	wclosed bool
 	rclosed bool
@@ -73,7 +78,25 @@ func PipeWriterWrite(w *io.PipeWriter, p []byte) (int, error) {
 	}
 	st.buf = append(st.buf, p...)
 	st.writerHeld = HeldByCurrentThread()
+	st.writer = CurrentThread()
+	st.ghost = MutexesOwnedBy(st.writer)
 	return len(p), nil
+}
+
+// ParkedHelperHolds: some pipe still holds unread data written by another thread than `asker` that held m at that
+// write. In a real run that thread is blocked inside Write (io.Pipe hands data over synchronously) and keeps m.
+func ParkedHelperHolds(m *sync.Mutex, asker int) bool {
+	for _, st := range pipeR {
+		if len(st.buf) == 0 || st.rclosed || st.writer == asker || st.writer == 0 {
+			continue
+		}
+		for _, g := range st.ghost {
+			if g == m {
+				return true
+			}
+		}
+	}
+	return false
 }
 
 // PipesParkedWithLocks counts pipes that still hold unread data written by a thread that held locks at
